@@ -353,6 +353,31 @@ func ruleByteIdx(c *Ctx, rule string, shorts ...string) {
 					if len(byteSliceLiteral(base)) > 0 {
 						continue
 					}
+					// a parameter of a private helper that is only ever handed loop-carried copies (the saved
+					// label in plusMatches(label, line)) is such a copy
+					if prm, ok := base.(*ssa.Parameter); ok && fn.Object() != nil && !fn.Object().Exported() {
+						idx := paramIndex(fn, prm)
+						sites, carried := 0, 0
+						for _, g := range srcFuncs(sp) {
+							for _, gb := range g.Blocks {
+								for _, gi := range gb.Instrs {
+									ci, ok := gi.(ssa.CallInstruction)
+									if !ok || ci.Common().StaticCallee() != fn || idx < 0 || idx >= len(ci.Common().Args) {
+										continue
+									}
+									sites++
+									switch ci.Common().Args[idx].(type) {
+									case *ssa.Parameter, *ssa.Call, *ssa.Extract:
+									default:
+										carried++
+									}
+								}
+							}
+						}
+						if sites > 0 && carried == sites {
+							continue
+						}
+					}
 					lb := lenLowerBound(c, b, base, 0)
 					n++
 					c.Funcs[funcName(fn)] = true
@@ -1733,6 +1758,35 @@ func ruleClampFirst(c *Ctx, rule string) {
 	}
 }
 
+// condLooksAt: the condition is a comparison of e, or what a call that is
+// handed e answered (ok of e.phredOffset()), possibly negated or combined.
+func condLooksAt(cond ssa.Value, e ssa.Value, depth int) bool {
+	if depth > 4 {
+		return false
+	}
+	switch x := cond.(type) {
+	case *ssa.BinOp:
+		return x.X == e || x.Y == e || condLooksAt(x.X, e, depth+1) || condLooksAt(x.Y, e, depth+1)
+	case *ssa.UnOp:
+		return x.Op == token.NOT && condLooksAt(x.X, e, depth+1)
+	case *ssa.Extract:
+		return condLooksAt(x.Tuple, e, depth+1)
+	case *ssa.Call:
+		for _, a := range x.Call.Args {
+			if a == e {
+				return true
+			}
+		}
+	case *ssa.Phi:
+		for _, ed := range x.Edges {
+			if condLooksAt(ed, e, depth+1) {
+				return true
+			}
+		}
+	}
+	return false
+}
+
 func ruleDecodeSwitch(c *Ctx, rule string) {
 	pkg := modPath + "/alphabet"
 	for _, name := range []string{"Encoding.DecodeToQphred", "Encoding.DecodeToQsolexa"} {
@@ -1748,7 +1802,7 @@ func ruleDecodeSwitch(c *Ctx, rule string) {
 					continue
 				}
 				if ifi, ok := d.Instrs[len(d.Instrs)-1].(*ssa.If); ok {
-					if bo, ok := ifi.Cond.(*ssa.BinOp); ok && (bo.X == ssa.Value(e) || bo.Y == ssa.Value(e)) {
+					if condLooksAt(ifi.Cond, e, 0) {
 						under = true
 					}
 				}
